@@ -84,6 +84,7 @@ type Frame struct {
 	caller   *Frame
 	recoverNil bool
 	noInv      bool
+	entryPtr   *State
 }
 
 type deferRec struct {
@@ -1017,6 +1018,16 @@ func (f *Frame) refInvariant(t Term, typ types.Type, st *State) {
 	if len(invs) == 0 || f.noInv {
 		return
 	}
+	// inside a function that stores to fields of this type the invariant may
+	// be temporarily broken: it is assumed only in the entry state
+	if e.P.isMutator(f.fn, key) && st != f.entryState() {
+		return
+	}
+	dk := "inv:" + t.S + ":" + f.stateSig(st, key)
+	if e.names[dk] != 0 {
+		return
+	}
+	e.names[dk] = 1
 	f.noInv = true // invariants of objects reached while evaluating an invariant are not unfolded
 	defer func() { f.noInv = false }()
 	for _, inv := range invs {
@@ -1054,4 +1065,60 @@ func (f *Frame) elemNonNil(et types.Type) bool {
 		return true
 	}
 	return false
+}
+
+func (f *Frame) entryState() *State {
+	return f.entryPtr
+}
+
+// stateSig identifies the heap versions an invariant of type key can read.
+func (f *Frame) stateSig(st *State, key string) string {
+	var b strings.Builder
+	fmt.Fprintf(&b, "%d", st.epoch)
+	for _, fam := range sortedKeys(st.heap) {
+		if strings.HasPrefix(fam, "F.") || strings.HasPrefix(fam, "Mem.") {
+			b.WriteString("|" + st.heap[fam].S)
+		}
+	}
+	return b.String()
+}
+
+func sortedKeys(m map[string]Term) []string {
+	var ks []string
+	for k := range m {
+		ks = append(ks, k)
+	}
+	sort.Strings(ks)
+	return ks
+}
+
+// isMutator: fn stores directly into a field of the named struct type.
+func (P *Program) isMutator(fn *ssa.Function, key string) bool {
+	if P.mutators == nil {
+		P.mutators = map[*ssa.Function]map[string]bool{}
+	}
+	m, ok := P.mutators[fn]
+	if !ok {
+		m = map[string]bool{}
+		for _, b := range fn.Blocks {
+			for _, in := range b.Instrs {
+				st, ok := in.(*ssa.Store)
+				if !ok {
+					continue
+				}
+				fa, ok := st.Addr.(*ssa.FieldAddr)
+				if !ok {
+					continue
+				}
+				if _, isAlloc := fa.X.(*ssa.Alloc); isAlloc {
+					continue // initialising a fresh object
+				}
+				if n, ok := fa.X.Type().Underlying().(*types.Pointer).Elem().(*types.Named); ok && n.Obj().Pkg() != nil {
+					m[n.Obj().Pkg().Name()+"."+n.Obj().Name()] = true
+				}
+			}
+		}
+		P.mutators[fn] = m
+	}
+	return m[key]
 }
